@@ -76,7 +76,7 @@ Section CI.
     C_ab : forall j, In j (r_aband s) ->
              (exists g, In (IEv (EPrune g j ASkip)) (r_tr s)) /\ exists c, fo c0 j = Some c /\ c_keep c = true;
     C_okap : forall g j, In (IEv (EApply g j AOk)) (r_tr s) -> exists c, fo (r_cl s) j = Some c /\ c_owner c = OOurs;
-    C_gone : forall g j, In (IEv (EPrune g j AOk)) (r_tr s) -> fo (r_cl s) j = None;
+    C_gone : forall g j, In (IEv (EPrune g j AOk)) (r_tr s) -> fo (r_cl s) j = None \/ u_fin (uinfo_of sc j) = true;
     C_own : forall j c, fo (r_cl s) j = Some c -> c_owner c = OOurs -> owned0 c0 j \/ In j aids;
   }.
 
@@ -184,7 +184,7 @@ Section CI.
       st = SDelete /\ In i pds /\ o_prune (sc_opts sc) = true /\ (exists g, e = EPrune g i (ast_of a)) /\
       (r_aband s' = r_aband s \/
        r_aband s' = i :: r_aband s /\ a = ASkipped /\ exists c, fo c0 i = Some c /\ c_keep c = true) /\
-      (a = ASucceeded -> fo (r_cl s') i = None) /\
+      (a = ASucceeded -> fo (r_cl s') i = None \/ u_fin (uinfo_of sc i) = true) /\
       (forall c, fo (r_cl s') i = Some c -> c_owner c = OOurs -> owned0 c0 i) ) ->
     (forall c, fo (r_cl s') i = Some c -> okuid c0 i (c_uid c)) ->
     CInv td' s'.
@@ -323,7 +323,7 @@ Section CI.
     intros K NA. unfold prune_one. cbn [p_live pobj_of_live].
     destruct (prune_filters sc pl locals (r_tbl s) uids c) eqn:PF.
     - rewrite ND. destruct (faulted sc (FDelete (c_id c))); [cbn; apply mc_ab|].
-      destruct (find_obj _ _); [destruct (N.eqb _ _)|]; cbn; apply mc_ab.
+      destruct (find_obj _ _); [destruct (N.eqb _ _); [destruct (u_fin _)|]|]; cbn; apply mc_ab.
     - exfalso. unfold prune_filters in PF. rewrite K in PF.
       destruct (negb (can_prune sc (c_owner c))); [discriminate|].
       destruct (negb (o_destroy (sc_opts sc)) && _); [discriminate|].
@@ -344,28 +344,28 @@ Section CI.
     rewrite ND in SO.
     set (s' := prune_one sc pl locals g uids s (pobj_of_live c)) in *.
     assert (FRM : frame (r_cl s) (r_cl s') (c_id c)).
-    { destruct SO as [[_ [_ C]]|[[_ [_ [C _]]]|[[_ [_ [C _]]]|[[_ [_ [C _]]]|[_ [_ [C _]]]]]]];
+    { destruct SO as [[_ [_ C]]|[[_ [_ [C _]]]|[[_ [_ [C _]]]|[[_ [_ [C _]]]|[[_ [_ [C _]]]|[_ [_ [C _]]]]]]]];
         try (rewrite C; apply frame_refl); exact C. }
     assert (KEEP : ab = true -> c_keep c = true).
     { intros ->. destruct (c_keep c) eqn:K; [reflexivity|]. exfalso.
       pose proof (prune_one_aband_nokeep locals g uids s c K NAL) as E. fold s' in E. rewrite E in SA.
       symmetry in SA. exact (cons_neq_self _ _ SA). }
     apply (CInv_result td' s s' (c_id c) SDelete a u 0%Z (EPrune g (c_id c) (ast_of a)) lt H ST); try assumption.
-    - destruct SO as [[[->| ->] _]|[[-> _]|[[-> _]|[[-> _]|[-> _]]]]]; discriminate.
+    - destruct SO as [[[->| ->] _]|[[-> _]|[[-> _]|[[-> _]|[[-> _]|[-> _]]]]]]; discriminate.
     - right. split; [reflexivity|]. split; [exact Hp|]. split; [exact PO|]. split; [exists g; reflexivity|]. split; [|split].
       + destruct ab; [right|left; exact SA]. split; [exact SA|]. split.
-        * destruct SO as [[_ [X _]]|[[X _]|[[X _]|[[_ [X _]]|[_ [X _]]]]]]; congruence.
+        * destruct SO as [[_ [X _]]|[[X _]|[[X _]|[[_ [X _]]|[[_ [X _]]|[_ [X _]]]]]]]; congruence.
         * exists c. split; [exact Hc0|apply KEEP; reflexivity].
-      + intros Ea. destruct SO as [[[X|X] _]|[[X _]|[[X _]|[[_ [_ [C [X|X]]]]|[_ [_ [_ C]]]]]]]; try congruence;
-          first [rewrite C; exact X|exact C].
+      + intros Ea. destruct SO as [[[X|X] _]|[[X _]|[[X _]|[[_ [_ [C [X|X]]]]|[[_ [_ [_ C]]]|[_ [_ [_ [_ [_ [UF _]]]]]]]]]]]; try congruence;
+          first [left; rewrite C; exact X|left; exact C|right; exact UF].
       + intros c1 Hc1 Hw.
         assert (SAME : r_cl s' = r_cl s -> owned0 c0 (c_id c)).
         { intros C. rewrite C in Hc1. destruct (C_own0 _ _ Hc1 Hw) as [X|X]; [exact X|]. exfalso. exact (pl_disj _ X Hp). }
-        destruct SO as [[_ [_ C]]|[[_ [_ [C _]]]|[[_ [_ [_ [n [N1 [N2 _]]]]]]|[[_ [_ [C _]]]|[_ [_ [_ C]]]]]]]; auto.
+        destruct SO as [[_ [_ C]]|[[_ [_ [C _]]]|[[_ [_ [_ [n [N1 [N2 _]]]]]]|[[_ [_ [C _]]]|[[_ [_ [_ C]]]|[_ [_ [C _]]]]]]]]; auto.
         * rewrite N1 in Hc1. injection Hc1 as <-. congruence.
         * congruence.
     - intros c1 Hc1.
-      destruct SO as [[_ [_ C]]|[[_ [_ [C _]]]|[[_ [_ [_ [n [N1 [N2 N3]]]]]]|[[_ [_ [C _]]]|[_ [_ [_ C]]]]]]];
+      destruct SO as [[_ [_ C]]|[[_ [_ [C _]]]|[[_ [_ [_ [n [N1 [N2 N3]]]]]]|[[_ [_ [C _]]]|[[_ [_ [_ C]]]|[_ [_ [C _]]]]]]]];
         try (rewrite C in Hc1; eapply C_uid0; exact Hc1).
       + rewrite N1 in Hc1. injection Hc1 as <-. rewrite N3. left. exists c. auto.
       + congruence.
